@@ -19,8 +19,9 @@ def _group(records):
         g = by.get(k)
         if g is None:
             g = by[k] = {"fam": "resolve", "origin": r["origin"], "wk": r["wk"], "srv": r["srv"],
-                         "lwk": r["lwk"], "allowed": []}
+                         "lwk": r["lwk"], "spell": r["spell"], "nsrvq": 0, "allowed": []}
             order.append(k)
+        g["nsrvq"] = max(g["nsrvq"], r["nsrvq"])
         v = {"refused": r["refused"], "result": r["result"], "wkreqs": r["wkreqs"]}
         lat = "%s/%s" % (r["lat"]["srverr"], r["lat"]["baddeleg"])
         for a in g["allowed"]:
